@@ -49,7 +49,9 @@ class Gen:
             return ('lit', self.pick([0, 1, 2, 3, -1]), 'I')
         if self.rich and self.chance(0.3):
             # CASE WHEN c THEN a [ELSE b] END
-            return ('case', self.bool_expr(cols, 2), self.int_expr(cols, depth + 1), self.int_expr(cols, depth + 1) if self.chance(0.7) else None)
+            nb = self.pick([1, 2, 2, 3])
+            whens = [(self.bool_expr(cols, 2), self.int_expr(cols, depth + 1)) for _ in range(nb)]
+            return ('case', whens, self.int_expr(cols, depth + 1) if self.chance(0.7) else None)
         op = self.pick(['+', '-', '*'])
         return (op, self.int_expr(cols, depth + 1), self.int_expr(cols, depth + 1))
 
@@ -202,7 +204,7 @@ def e_sql(e):
     if k in ('between', 'notbetween'):
         return '(%s %sBETWEEN %s AND %s)' % (e_sql(e[1]), 'NOT ' if k == 'notbetween' else '', e_sql(e[2]), e_sql(e[3]))
     if k == 'case':
-        return '(CASE WHEN %s THEN %s%s END)' % (e_sql(e[1]), e_sql(e[2]), '' if e[3] is None else ' ELSE ' + e_sql(e[3]))
+        return '(CASE %s%s END)' % (' '.join('WHEN %s THEN %s' % (e_sql(c), e_sql(v)) for c, v in e[1]), '' if e[2] is None else ' ELSE ' + e_sql(e[2]))
     raise ValueError(k)
 
 
